@@ -165,7 +165,7 @@ CHECKS = {
              "implementation and compared with the model in Coq; values of window/conv/pool are compared with naive nested loops on exact integers.",
         design_ref="DESIGN.md 3 (C16)",
         note="Partial: the theorems cover acceptance, shapes, strides, the element map and memory bounds of the window view and the acceptance/output-extent rules of conv/pool. "
-             "That conv_nd/max_pool VALUES equal the naive formula is tested (exactly, on integers), not yet proved; batchnorm, gru, softmax and the losses are not covered yet. "
+             "That conv_nd/max_pool VALUES equal the naive formula is tested (exactly, on integers; both are also in the exact registry used by C02), not proved; batchnorm, gru (any s0), softmax/logsoftmax (all axes) and the losses (all options) are compared with their documented formulas evaluated naively in Python floats (1e-10) over option sweeps -- a test, not a theorem. "
              "Trusted: Coq kernel, hand-written Model/Window.v (tied by correspondence), as_strided/ascontiguousarray semantics, harness. No axioms.",
         technique="Coq proof (lia/nia + list induction) + exhaustive/random configuration correspondence evaluated by vm_compute",
     ),
